@@ -566,6 +566,17 @@ def r5_2(ctx):
         ok = shifted and base
         incs_j = _acc_increments(j, acc) if acc else []
         okinc = len(incs_j) == 1 and norm(incs_j[0][1]) == f"len({piece})" and incs_j[0][0] is lp.body[-1]
+    if ok:
+        # precedence: the piece's base style is the span placed FIRST, its own spans after it (later spans win in render)
+        lp = loops_j[0]
+        def first_line(pred):
+            ls = [x.lineno for x in ast.walk(lp) if pred(x)]
+            return min(ls) if ls else None
+        base_line = first_line(lambda c: isinstance(c, ast.Call) and norm(expand_alias(c.func, jal)) in ("Span", "_Span") and len(c.args) == 3 and not isinstance(c.args[0], ast.BinOp))
+        own_line = first_line(lambda c: isinstance(c, ast.Call) and norm(expand_alias(c.func, jal)) in ("Span", "_Span") and len(c.args) == 3 and isinstance(c.args[0], ast.BinOp))
+        ctx.check(base_line is not None and own_line is not None and base_line < own_line, j.fq, "base style span before the piece's own spans", f"{m.relpath}:{lp.lineno}",
+                  "the span for a piece's base style precedes the piece's own spans (own spans take precedence)",
+                  "join appends the span carrying a piece's base style AFTER the piece's own spans: span order is precedence, so the base style overrides the piece's own styles (a blue word inside red text comes out red)")
     n += 1
     ctx.check(ok, j.fq, "join offsets", j.where, "join shifts each piece's spans by the accumulated length", "join: spans of a piece are not shifted by the total length of the pieces before it")
     ctx.check(okinc, j.fq, "offset += len(piece)", j.where, "offset advanced by the piece's length after the piece's spans were placed", "join advances the offset before placing the piece's spans (or not by the piece's length)")
